@@ -36,3 +36,10 @@
 (declare-fun split_count (Str Int) Int)
 (declare-fun split_piece (Str Int Int) Str)
 (assert (forall ((s Str) (c Int)) (! (>= (split_count s c) 1) :pattern ((split_count s c)))))
+; the language of the STRING token of expr/Expr.g4:  '"' ( ~["\\] | '\\' ["\\/bfnrt] )* '"'   (abstract; what the
+; proofs need: a token has both quotes)
+(declare-fun lex_string (Str) Bool)
+(assert (forall ((s Str)) (! (=> (lex_string s) (and (>= (slen s) 2) (= (select (sarr s) 0) 34) (= (select (sarr s) (- (slen s) 1)) 34))) :pattern ((lex_string s)))))
+; the strings strconv.Unquote accepts, and its result (abstract)
+(declare-fun go_quoted (Str) Bool)
+(declare-fun go_unquote (Str) Str)
